@@ -37,7 +37,9 @@ def build(rng, facts, name, pair=None):
             b.emit("kobs " + a, ("same", ja))
             if exact: b.emit("kstats " + a, ("same", jsa))
         j0 = b.emit("kobs " + c) if rng.random() < 0.7 else None       # (sometimes the argument is not read before the merge either)
-        b.kmerge(a, c)
+        if not exact and rng.random() < 0.2:          # the merge travels over the wire: DecodeAndMergeWith of the argument's encoding is a merge too (dyadic weights survive the codec: Props/C18grid.v)
+            b.emit("kenc mw %s %d" % (c, rng.choice([0, 1])), "ok"); b.emit("kdecinto %s mw" % a, "ok"); b.vals[a] = b.vals[a] + b.vals[c]
+        else: b.kmerge(a, c)
         if j0 is None: j0 = b.emit("kobs " + c)
         else: b.emit("kobs " + c, ("same", j0))       # the argument is unchanged
         args.append((c, j0))
@@ -84,4 +86,4 @@ def run(tier, seed):
         "in a random order/tree; every (receiver kind, argument kind) pair is enumerated; checks on the implementation: the merged sketch's full observation (count, zero, min, max, bins of both stores), "
         "11 quantiles and its iteration equal those of the single sketch exactly; each argument's observation is unchanged by the merge; merging an empty sketch changes nothing. "
         "distinct_nontrivial = distinct cases with at least 2 parts and 3 values",
-        nontrivial=lambda b, impl: len(b.vals.get("whole", [])) >= 3 and sum(1 for l in b.lines if l.startswith("kmerge")) >= 1)
+        nontrivial=lambda b, impl: len(b.vals.get("whole", [])) >= 3 and sum(1 for l in b.lines if l.startswith(("kmerge", "kdecinto"))) >= 1)
